@@ -14,9 +14,9 @@ def run(ctx):
     base = {"B": '{"b1"}', "T": '{"f", "g"}', "CB": '{"c1"}', "RS": "<- RS_12", "A": "{0, 1}", "Ops": "<- RejectOps"}
     life.mc(ctx, dict(base, MaxOps=4), tag="lifecycle + Mistake")
     behs = life.gen(ctx, dict(base, T='{"f"}', A="{0}", RS="<- RS_1"), 3, "all histories with mistakes, 1 target")
-    behs = [b for b in behs if any(s["op"] == "Mistake" for s in b)]
+    behs = [b for b in behs if any(s["op"] in ("Mistake", "WhenBad") for s in b)]
     sims = life.sim(ctx, dict(base, CB='{"c1", "c2"}'), 300 if q else 4000, 9, "random histories with mistakes at TLC-chosen points")
-    behs += [b for b in sims if any(s["op"] == "Mistake" for s in b)]
+    behs += [b for b in sims if any(s["op"] in ("Mistake", "WhenBad") for s in b)]
     life.replay(ctx, "life", behs)
     binary = drv_binary(ctx)
     out = ctx.path("reject.ndjson")
